@@ -1,0 +1,19 @@
+//go:build verif
+
+package builtin
+
+import "github.com/open2b/scriggo/native"
+
+// Exports for the verification harness (add-only, compiled only with -tags verif).
+
+// VerifOnlyJSONWhitespace calls onlyJSONWhitespace.
+func VerifOnlyJSONWhitespace(s string) bool { return onlyJSONWhitespace(s) }
+
+// VerifTrimJSONSpace calls trimJSONSpace.
+func VerifTrimJSONSpace(data native.JSON) native.JSON { return trimJSONSpace(data) }
+
+// VerifIsSeparator calls isSeparator.
+func VerifIsSeparator(r rune) bool { return isSeparator(r) }
+
+// VerifLookupJSONSpaceLen returns the length of the lookupJSONSpace table.
+func VerifLookupJSONSpaceLen() int { return len(lookupJSONSpace) }
